@@ -7,12 +7,43 @@ copied into the evidence files. Keys of CFG are harness function names.
  replay      'trace-only' for harnesses that rely on compiler-level stubs
 """
 CFG = {
+    "c16_t_iter_4": dict(cost=900, mem_gb=24, timeout_s=3000),
+    "c16_t_iter_6": dict(cost=2000, mem_gb=30, timeout_s=5400),
+    "c16_t_find_ctx_4": dict(cost=1500, mem_gb=24, timeout_s=3000),
+    "c16_t_tlv_iter_4": dict(cost=1500, mem_gb=24, timeout_s=3000),
+    "c16_t_tlv_iter_6": dict(cost=2000, mem_gb=30, timeout_s=5400),
+    "c16_t_reencode_single_element_6": dict(cost=1500, mem_gb=24, timeout_s=3000),
+    "c16_t_reencode_container_6": dict(cost=1500, mem_gb=24, timeout_s=3000),
+    "c16_t_container_len_7": dict(cost=900, mem_gb=16, timeout_s=3000),
+    "c16_t_container_len_10": dict(cost=1500, mem_gb=24, timeout_s=5400),
+    "c16_t_tlv_iter_nested_skeleton": dict(cost=500, mem_gb=24, timeout_s=3600),
+    "c09_q_backoff_vs_spec_n0": dict(arith=True, arith_focus=["backoff_ms"], cost=60),
+    "c09_q_backoff_vs_spec_n1": dict(arith=True, arith_focus=["backoff_ms"], cost=60),
+    "c09_q_backoff_vs_spec_n2": dict(arith=True, arith_focus=["backoff_ms"], cost=60),
+    "c09_q_backoff_vs_spec_n3": dict(arith=True, arith_focus=["backoff_ms"], cost=60),
+    "c09_q_backoff_vs_spec_n4": dict(arith=True, arith_focus=["backoff_ms"], cost=60),
+    "c09_q_backoff_vs_spec_n5": dict(arith=True, arith_focus=["backoff_ms"], cost=60),
+    "c07_q_failsafe_rollback_leaves_no_session_on_dropped_fabric": dict(cost=120, mem_gb=16),
+    "c19_q_chain_decision_equals_reference": dict(cost=120, replay="trace-only"),
+    "c06_q_attr_gate": dict(replay="trace-only"),
+    "c06_q_cmd_gate": dict(replay="trace-only"),
+    "c06_q_event_gate": dict(replay="trace-only"),
+    "c06_q_expand_concrete_read_path": dict(replay="trace-only", cost=60),
+    "c06_t_expand_cache_only_for_identical_path": dict(replay="trace-only", cost=600, timeout_s=2400),
+    "c06_t_expand_wildcard_leaf": dict(replay="trace-only", cost=300, timeout_s=1800),
+    "c13_q_record_keeps_coverage": dict(replay="trace-only", cost=230),
+    "c16_q_scalar_accessors_10": dict(cost=300, mem_gb=12),
+    "c16_q_integer_decode_equals_reference_10": dict(cost=300, mem_gb=12),
+    "c16_q_container_len_5": dict(cost=330, mem_gb=12),
+    "c03_q_encode_then_decode_roundtrip": dict(cost=130),
+    "c13_q_purge_up_to": dict(cost=100),
     "c12_q_event_number_step": dict(arith=True, arith_focus=["next_event_number"], cost=40),
     "c12_t_event_number_schedule4": dict(arith=True, arith_focus=["next_event_number"], cost=300, timeout_s=1800),
     "c04_t_group_store_full_eviction": dict(cost=120, timeout_s=1800),
     "c04_q_session_first_two_messages": dict(cost=120),
-    "c07_q_remove_for_fabric": dict(cost=200, mem_gb=24, timeout_s=900),
-    "c20_q_pase_purge": dict(cost=200, mem_gb=24, timeout_s=900),
+    "c07_q_remove_for_fabric": dict(cost=480, mem_gb=24, timeout_s=1500),
+    "c20_q_pase_purge": dict(cost=480, mem_gb=24, timeout_s=1500),
+    "c07_q_failsafe_rollback_keeping_the_answering_session": dict(cost=120, mem_gb=16),
     "c20_q_eviction_choice": dict(cost=150),
     "c10_q_exchange_matching_and_gate": dict(cost=200, mem_gb=16),
     "c10_q_exchange_table_full": dict(cost=150, mem_gb=16),
@@ -28,12 +59,44 @@ COMMON_ASSUMPTIONS = [
 ]
 
 BOUNDS = {
-    "C04": "window step: exhaustive over (max_ctr 2^32, bitmap 2^16, counter 2^32, ghost 2^32) for unicast/unsecured/group modes; histories of 3 (quick) / 4 (thorough) receives from RxCtrState::new(0); group sender table with 2 entries (quick) and the real 16 entries incl. LRU eviction (thorough)",
+    "C02": "one step from every window state (closed / open with any failure count 0..255, any expiry); salt length 0..40, timeout any u16, clock any u64 tick; 20-failure ladder from a fresh window",
+    "C03": "datagram <= 40 bytes (symbolic length); payload <= 4 bytes for the round trip; all header flag/field combinations",
+    "C04": "window step: exhaustive over (max_ctr 2^32, bitmap 2^16, counter 2^32, ghost 2^32) for unicast/unsecured/group modes; histories of 3 (quick) / 4 (thorough) receives from the session's initial state; group sender table with 2 entries (quick) and the real 16 entries incl. LRU eviction (thorough)",
+    "C05": "<= 2 subjects, <= 2 targets, <= 2 endpoint device types per entry (thorough: all at once; quick: three slices); accessor with <= 2 tags; access word all 2^16",
+    "C06": "cluster with <= 2 attributes / 1 command / 1 event and symbolic access words; node 1 endpoint x 1 cluster x 2 attributes; request path fully symbolic",
+    "C07": "session table capacity 3 (feature max-sessions-3); 2 sessions of arbitrary mode for remove_for_fabric; concrete 2-session scene for the fail-safe rollback",
+    "C08": "every fail-safe context (all 32 flag sets, fabric index, timeout, arming instant) x every session mode; clock any u64 tick below 2^62",
+    "C09": "one step from every reliability state; back-off: base interval < 2^22 ms, transmission count 0..5, jitter byte in {0,1,128,255}",
+    "C10": "<= 3 exchange slots (any id / role / freed again), exchange table full at MAX_EXCHANGES = 5",
+    "C12": "step: every invariant state (u32 ring / 28-bit skip-zero ring / u64 with epoch 10000); schedules of 5 operations; check-in epoch <= 4 and jumps <= 6 in the schedule harness",
+    "C13": "pending-change table <= 3 entries (overflow proved unreachable there); <= 2 subscriptions in the table + 1 in flight; timing: all u16 intervals, stamps < 2^62 ticks",
+    "C15": "3 live sessions, 2 live exchanges, at most 1 interleaved receive between a transmission and its retransmission",
+    "C16": "header arithmetic: all 10- and 18-byte prefixes; accessors / reference differential: every byte string <= 10; container_len/raw_value: <= 5 (quick) / 7 (thorough); iterators on arbitrary bytes <= 4..6 (thorough only); round trips: one element, strings <= 4 bytes",
+    "C17": "PlainHdr 26-byte prefixes; ProtoHdr 14; status report 12; BTP header 6; check-in <= 40; base38 chunks <= 5; ParseBuf/WriteBuf 12-byte buffers, 4 operations",
+    "C18": "hostile data segment <= 8 bytes, handshake <= 10 bytes; window size 1..255, segment size 20..244 (sender step: 20..21, message <= 24 bytes); ring buffer N = 8 for the FIFO equivalence",
+    "C19": "chain shapes NOC->RCAC and NOC->ICAC->RCAC; every attribute combination per certificate; time any u64 seconds, reliable or last-known-good",
+    "C20": "session table capacity 3 (feature max-sessions-3); 3 sessions with arbitrary reserved / expired / last-use / exchange occupancy; clock tie allowed",
 }
 
 ASSUMPTIONS = {
+    "C02": ["clock = symbolic non-decreasing tick source (stub of embassy_time::Instant::now)", "the mDNS notifier is a counting closure"],
+    "C03": ["AEAD = recording oracle with symbolic accept/reject (identity cipher for the round trip): cryptographic strength is trusted, the check is about WHAT is authenticated"],
     "C04": [
         "group (roll-over) mode: the 'accepted once stays rejected' frame is claimed for forward jumps <= 2^31-1-16 only (beyond that the modular comparison itself makes an old counter look new again)",
         "GroupCtrStore pre-states hold one entry per (fabric, node) - the representation invariant of post_recv's own insert path",
     ],
+    "C05": ["Accessor carries a never-dereferenced &Matter (AclEntry::allow does not use it)", "a subject in the tag range with all-zero low 32 bits is not a tag (matches acl::is_noc_cat)"],
+    "C06": ["AccessReq::allow replaced by a recording oracle (C05 decides allow itself); counterexamples are CBMC traces (compiler-level stub)"],
+    "C07": ["KV store = DummyKvBlobStore (nothing persisted => the added fabric is dropped), networks = DummyNetworkAccess", "resumption records of a rolled-back fabric are purged in InteractionModel::notify_fabric_removed (async context, not encoded)"],
+    "C08": ["key generation = oracle", "certificate arguments of AddNOC/UpdateNOC are not exercised on the accepting side (needs real certificates)"],
+    "C09": ["SMT route validated per run by the x00_q_smt_selftest harness; CBMC 6.11's SMT2 export of checked multiplication is repaired textually (engine/run.py fix_overflow_mult)"],
+    "C10": ["no ack present on the matched message (ack matching is C09)"],
+    "C12": ["the application persists exactly what the counter API tells it to (check-in counter)", "KV store failures are symbolic for the event number"],
+    "C13": ["ChangedAttrs::promote_and_insert stubbed by assert(false) in the small-table harness (= proved unreachable below capacity)"],
+    "C15": ["a session ends before 2^32 messages (counter wrap not claimed)"],
+    "C16": ["core::str::from_utf8 stubbed by a symbolic Ok/Err in the tlv_iter harness"],
+    "C17": ["AEAD / HMAC oracles for the check-in framing (HMAC = a fixed function of its input)"],
+    "C18": ["RingBuf::{push,pop,pop_byte,free} replaced by an abstract FIFO (length accounting + 48-byte content) in the session harnesses; the real RingBuf<8> is checked against a FIFO separately; native replay runs the real ring buffer", "the ATT MTU reported by the local BLE stack is >= 23"],
+    "C19": ["11 CertRef accessors + UtcTime::{any_secs, reliable_secs} stubbed by symbolic attributes; signature verification = oracle"],
+    "C20": ["clock contract: non-decreasing, ties allowed"],
 }
